@@ -15,6 +15,8 @@ from vlib import w as W
 from vlib.core import Ob
 
 PROPERTY_ID = "C03"
+ENGINE = 'E1 CrossHair 0.0.110 (z3) on the real code'
+TECHNIQUE = 'CrossHair symbolic execution of the real Aligned / IndelMap / SeqView code with symbolic gap layout, view state and interval; the result is read column by column against a string-free oracle (gap | parent index, strand); all paths exhausted per obligation'
 CLAIM = (
     "Aligned slicing (slice, int, single-span feature map), reverse complement and concatenation give, column by column, the gapped string operation's result "
     "(gap / parent index / strand), keep map and sequence lengths consistent, for every gap layout with <= G runs, every view state and every interval."
